@@ -202,6 +202,16 @@ def run(ctx):
                             elif got != ref:
                                 ctx.fail("oracle", "%s: unit=%s suppress_conversion=%s suppress_sorting=%s differs from (s, off, off)" % (name, u, fa, fb),
                                          dict(inp, unit=u, flags=[fa, fb]), impl=str(got)[:600], expected=str(ref)[:600])
+            # results built inside the library (aligned spike times are differences of stored times) are stored rounded to 1 ns too
+            # (decimal, non-dyadic times: 0.3 - 0.1 is 0.19999999999999998 before rounding)
+            sp = np.round(np.arange(1, 60) * 0.1 + (r % 7) * 0.01, 9)
+            pe = nap.compute_perievent(nap.Ts(sp), nap.Ts(np.round(np.arange(1, 6) * 0.7, 9)), 1.25)
+            for key in pe.keys():
+                tt = np.asarray(pe[key].t)
+                if not np.array_equal(tt, np.around(tt, 9)) or any(tt[i] > tt[i + 1] for i in range(len(tt) - 1)):
+                    ctx.fail("oracle", "compute_perievent: stored timestamps of a member are not the sorted 1-ns-rounded seconds",
+                             dict(level="stored", lattice_us=desc, member=int(key)), impl=[repr(float(v)) for v in tt[:6]])
+                    break
             # stored timestamps: seconds rounded to 1 ns and sorted, for unsorted input
             cfg.suppress_conversion_warnings, cfg.suppress_time_index_sorting_warnings = False, False
             for fb in (False, True):
